@@ -136,7 +136,7 @@ class Run:
         ev = {
             'property_id': self.pid, 'tier': self.tier, 'seed': int(os.environ.get('VERIF_SEED', '0') or 0),
             'level': self.level, 'coverage': cov,
-            'assumptions': self.assumptions + ['std axioms of DESIGN.md 4.3 (those used are listed in coverage.trusted_base / axioms_used)'],
+            'assumptions': list(dict.fromkeys(self.assumptions)) + ['std axioms of DESIGN.md 4.3 (those used are listed in coverage.trusted_base / axioms_used)'],
             'wall_s': round(time.time() - self.t0, 2), 'violations': n_viol,
         }
         if self.level != 'proof':
